@@ -1037,6 +1037,37 @@ lyd_insert_check_schema(const struct lysc_node *parent, const struct lysc_node *
     return LY_SUCCESS;
 }
 
+/**
+ * @brief Check schema place of a node to be inserted as a sibling of another node.
+ *
+ * @param[in] sibling Sibling to insert next to, the schema parent of an opaque sibling is learned from its data parent.
+ * @param[in] schema Schema node of the inserted node.
+ * @return LY_SUCCESS on success.
+ * @return LY_EINVAL if the place is invalid.
+ */
+static LY_ERR
+lyd_insert_check_sibling(const struct lyd_node *sibling, const struct lysc_node *schema)
+{
+    const struct lyd_node *parent;
+
+    if (sibling->schema) {
+        return lyd_insert_check_schema(NULL, sibling->schema, schema);
+    }
+
+    parent = lyd_parent(sibling);
+    if (parent) {
+        return lyd_insert_check_schema(parent->schema, NULL, schema);
+    }
+
+    /* top-level opaque sibling */
+    if (schema && lysc_data_parent(schema)) {
+        LOGERR(schema->module->ctx, LY_EINVAL, "Cannot insert, node \"%s\" is not top-level.", schema->name);
+        return LY_EINVAL;
+    }
+
+    return LY_SUCCESS;
+}
+
 LIBYANG_API_DEF LY_ERR
 lyd_insert_child(struct lyd_node *parent, struct lyd_node *node)
 {
@@ -1085,7 +1116,7 @@ lyd_insert_sibling(struct lyd_node *sibling, struct lyd_node *node, struct lyd_n
     LY_CHECK_ARG_RET(NULL, node, sibling != node, LY_EINVAL);
 
     if (sibling) {
-        LY_CHECK_RET(lyd_insert_check_schema(NULL, sibling->schema, node->schema));
+        LY_CHECK_RET(lyd_insert_check_sibling(sibling, node->schema));
     }
 
     first_sibling = lyd_first_sibling(sibling);
@@ -1113,14 +1144,19 @@ lyd_insert_before(struct lyd_node *sibling, struct lyd_node *node)
     LY_CHECK_ARG_RET(NULL, sibling, node, sibling != node, LY_EINVAL);
     LY_CHECK_CTX_EQUAL_RET(LYD_CTX(sibling), LYD_CTX(node), LY_EINVAL);
 
-    LY_CHECK_RET(lyd_insert_check_schema(NULL, sibling->schema, node->schema));
+    LY_CHECK_RET(lyd_insert_check_sibling(sibling, node->schema));
 
     if (node->schema && (!(node->schema->nodetype & (LYS_LIST | LYS_LEAFLIST)) || !(node->schema->flags & LYS_ORDBY_USER))) {
         LOGERR(LYD_CTX(sibling), LY_EINVAL, "Can be used only for user-ordered nodes.");
         return LY_EINVAL;
     }
-    if (node->schema && sibling->schema && (node->schema != sibling->schema)) {
+    if (node->schema && (node->schema != sibling->schema)) {
         LOGERR(LYD_CTX(sibling), LY_EINVAL, "Cannot insert before a different schema node instance.");
+        return LY_EINVAL;
+    }
+    if (!node->schema && sibling->schema) {
+        /* opaque nodes always follow all the data nodes */
+        LOGERR(LYD_CTX(sibling), LY_EINVAL, "Cannot insert an opaque node before a data node.");
         return LY_EINVAL;
     }
 
@@ -1137,14 +1173,19 @@ lyd_insert_after(struct lyd_node *sibling, struct lyd_node *node)
     LY_CHECK_ARG_RET(NULL, sibling, node, sibling != node, LY_EINVAL);
     LY_CHECK_CTX_EQUAL_RET(LYD_CTX(sibling), LYD_CTX(node), LY_EINVAL);
 
-    LY_CHECK_RET(lyd_insert_check_schema(NULL, sibling->schema, node->schema));
+    LY_CHECK_RET(lyd_insert_check_sibling(sibling, node->schema));
 
     if (node->schema && (!(node->schema->nodetype & (LYS_LIST | LYS_LEAFLIST)) || !(node->schema->flags & LYS_ORDBY_USER))) {
         LOGERR(LYD_CTX(sibling), LY_EINVAL, "Can be used only for user-ordered nodes.");
         return LY_EINVAL;
     }
-    if (node->schema && sibling->schema && (node->schema != sibling->schema)) {
+    if (node->schema && (node->schema != sibling->schema)) {
         LOGERR(LYD_CTX(sibling), LY_EINVAL, "Cannot insert after a different schema node instance.");
+        return LY_EINVAL;
+    }
+    if (!node->schema && sibling->next && sibling->next->schema) {
+        /* opaque nodes always follow all the data nodes */
+        LOGERR(LYD_CTX(sibling), LY_EINVAL, "Cannot insert an opaque node before a data node.");
         return LY_EINVAL;
     }
 
